@@ -888,7 +888,44 @@ def run_reads(ctx, cases, check_model=True):
     return items, hitems, names, stats
 
 
+def alias_probe(ctx):
+    """Histories that edit the target's own metadata containers IN PLACE, judged against reference reads taken in a
+    pristine interpreter (vlib/c16_alias.py, a fresh subprocess: leaked defaults must not pollute this process, and
+    'used target vs brand-new target' cannot see a default that is shared by every instance)."""
+    import subprocess
+    import sys
+    n = 40 if ctx.tier == "quick" else 400
+    try:
+        p = subprocess.run([sys.executable, "-W", "ignore", "-m", "vlib.c16_alias", str(ctx.rng.randrange(10 ** 6)), str(n)],
+                           stdout=subprocess.PIPE, stderr=subprocess.PIPE, text=True, timeout=600, cwd=core.VERIF)
+    except subprocess.TimeoutExpired:
+        ctx.obligation("finder:in-place-history-probe-completed", False, "timeout")
+        return
+    diffs, evaluated = [], 0
+    for line in p.stdout.splitlines():
+        if line.startswith("DIFF "):
+            diffs.append(json.loads(line[5:]))
+        elif line.startswith("EVALUATED "):
+            evaluated = int(line.split()[1])
+    ctx.obligation("finder:in-place-history-probe-completed", p.returncode == 0 and evaluated > 0, (p.stderr or "")[-400:])
+    ctx.count(("alias-probe",), n=evaluated)
+    for d in diffs:
+        attr = re.split(r"[.\[]", d["attr"])[0] or d["attr"]
+        key = "history-alias:%s:%s" % (attr, d["target"])
+        if under_cap(ctx, key):
+            ctx.violation(
+                "after the history %s, %s().readStr(<%s source>, %r) into %s target gives %s = %r; the same read in a pristine "
+                "interpreter gives %r" % ("; ".join(d["history"]), d["class"], d["format"], d["format"],
+                                          "the used" if d["target"] == "used" else "a BRAND-NEW", d["attr"], d["after_history"], d["pristine"]),
+                {"history": d["history"], "class": d["class"], "format": d["format"], "source": d["source"], "target": d["target"],
+                 "attr": d["attr"], "pristine": d["pristine"], "after_history": d["after_history"],
+                 "how_to_replay": "python -m vlib.c16_alias <seed> (fresh interpreter)"},
+                kind="history", key=key)
+    ctx.coverage["in_place_history_reads"] = evaluated
+
+
 def run(ctx):
+    alias_probe(ctx)
     ctx.trusted += ["Coq 8.16.1 kernel + vm_compute (no native_compute)",
                     "translate/c16_rw.py (fail-closed ast translator of the statement order of read/readStr/write)",
                     "the effect semantics of Model/C16_ReadWriteTxn.v (Structure.__init__ without arguments, __dict__.update/pop, self[:] = ..., "
@@ -898,6 +935,8 @@ def run(ctx):
                         "a parser returns a Structure instance, None (P_cif without atom sites; handled as an empty Structure()) or raises",
                         "instance attributes other than title / pdffit / _lattice that the user attached (not format metadata) are outside the property: they survive a read",
                         "any exception type counts as a failed read / write",
+                        "metadata containers (pdffit dictionary and its nested lists) of distinct objects are distinct objects: not part of the Coq model; "
+                        "enforced by the translator (PDFFitStructure.__init__ must build a literal dictionary, no class-level mutable defaults) and probed by vlib/c16_alias.py",
                         "the any-failure theorem assumes that a pdffit entry of a parse result, when present, is a dictionary (pdffit_entry_ok)"]
     quick = ctx.tier == "quick"
     rng = ctx.rng
